@@ -22,8 +22,10 @@ def run_atheris(ctx, target: str, runs: int, check_case, max_len: int = 256) -> 
     finally:
         if deps in sys.path:
             sys.path.remove(deps)
-    work = os.path.join(ROOT, "scratch", "fuzz", f"{target}-{ctx.seed}-{ctx.shard}")
-    shutil.rmtree(work, ignore_errors=True)
+    import tempfile
+    base = os.path.join(ROOT, "scratch", "fuzz")
+    os.makedirs(base, exist_ok=True)
+    work = tempfile.mkdtemp(prefix=f"{target}-{ctx.seed}-{ctx.shard}-", dir=base)     # unique: the same check may run concurrently
     os.makedirs(os.path.join(work, "corpus"))
     out = os.path.join(work, "finding.json")
     seeds = os.path.join(ROOT, "fuzz", f"corpus_{target}")
